@@ -183,6 +183,50 @@ class BoundMethod(Value):
 
 
 # control flow signals
+class _GenStop(Exception):
+    """enough items were taken from a generator body"""
+
+
+class _GenAbort(Exception):
+    """a generator body cannot be followed"""
+
+
+class GenV(Value):
+    """A generator object.  Its body is (re-)run from the start whenever items are wanted, up to the number wanted: a pure generator
+    gives the same items however it is consumed.  `take(limit)` -> (items or None, finished?)."""
+
+    def __init__(self, interp, fi, args, kwargs, self_obj, closure):
+        self.interp, self.fi, self.args, self.kwargs, self.self_obj, self.closure = interp, fi, list(args), dict(kwargs), self_obj, closure
+        self.pos = 0        # how many items have been consumed (next(), a finished for loop)
+
+    def rest(self, limit):
+        """(items not yet consumed or None, finished?), consuming them"""
+        items, fin = self.take(self.pos + limit)
+        if items is None:
+            return None, False
+        out = items[self.pos:]
+        self.pos = len(items)
+        return out, fin
+
+    def take(self, limit):
+        it = self.interp
+        ctx = {'items': [], 'limit': limit}
+        it._gen_stack.append(ctx)
+        finished = True
+        try:
+            it.call_funcinfo(self.fi, self.args, self.kwargs, self.self_obj, None, closure=self.closure, _gen=True)
+        except _GenStop:
+            finished = False
+        except _GenAbort:
+            return None, False
+        finally:
+            it._gen_stack.pop()
+        return ctx['items'], finished
+
+    def __repr__(self):
+        return 'Gen(%s)' % self.fi.name
+
+
 class _Return(Exception):
     def __init__(self, value):
         self.value = value
@@ -336,6 +380,7 @@ class Interp:
         self.depth = 0
         self.callstack = []
         self.fwd = {}           # id(old abstract array) -> (old, new) after an in-place operation
+        self._gen_stack = []    # generator bodies being run: {'items': [...], 'limit': n or None}
 
     def choose(self, n, label=''):
         i = len(self.trace)
@@ -408,7 +453,21 @@ class Interp:
         return v
 
     # -- calling -----------------------------------------------------------
-    def call_funcinfo(self, fi, args, kwargs, self_obj, node, closure=None, frame_holder=None, toplevel=False):
+    GEN_FUEL = 48
+
+    def _is_generator(self, fi):
+        g = getattr(fi, '_is_gen', None)
+        if g is None:
+            g = any(isinstance(n, (ast.Yield, ast.YieldFrom)) for n in walk_no_nested(fi.node))
+            try:
+                fi._is_gen = g
+            except Exception:
+                pass
+        return g
+
+    def call_funcinfo(self, fi, args, kwargs, self_obj, node, closure=None, frame_holder=None, toplevel=False, _gen=False):
+        if not _gen and not toplevel and self._is_generator(fi):
+            return GenV(self, fi, args, kwargs, self_obj, closure)
         if self.depth >= self.MAX_DEPTH:
             return Unknown('inlining depth')
         if fi in self.callstack and not toplevel:
@@ -583,6 +642,10 @@ class Interp:
             if name == 'append' and recv.kind == 'list':
                 recv.items.append(args[0])
                 return Const(None)
+            if name == 'add' and recv.kind == 'set' and len(args) == 1 and isinstance(args[0], Const) and all(isinstance(i, Const) for i in recv.items):
+                if args[0] not in recv.items:
+                    recv.items.append(args[0])
+                return Const(None)
             if name == 'extend' and recv.kind == 'list' and isinstance(args[0], Tup):
                 recv.items.extend(args[0].items)
                 return Const(None)
@@ -597,6 +660,16 @@ class Interp:
                 if v is not None:
                     return v
                 return args[1] if len(args) > 1 else Const(None)
+            if name == 'setdefault' and 1 <= len(args) <= 2 and not isinstance(args[0], Unknown):
+                v = recv.get(args[0])
+                if v is None and recv.open:
+                    return Unknown('setdefault on a dictionary whose keys are not all known')
+                if v is None:
+                    v = args[1] if len(args) > 1 else Const(None)
+                    recv.set(args[0], v)
+                return v
+            if name in ('keys', 'values', 'items') and recv.open:
+                return Unknown('%s of a dictionary whose keys are not all known' % name)
             if name == 'keys':
                 return Tup([k for k, _ in recv.entries])
             if name == 'values':
@@ -626,6 +699,17 @@ class Interp:
             if isinstance(args[0], Const) and isinstance(args[0].v, (str, tuple, list)):
                 return Const(len(args[0].v))
             return Unknown('len')
+        if name == 'set' and len(args) <= 1 and not kwargs:
+            if not args:
+                return Tup([], 'set')
+            its = self.iterate(args[0], node)
+            if its is not None and all(isinstance(i, Const) for i in its):
+                out = []
+                for i in its:
+                    if i not in out:
+                        out.append(i)
+                return Tup(out, 'set')
+            return Unknown('set')
         if name in ('tuple', 'list'):
             if not args:
                 return Tup([], name)
@@ -641,6 +725,40 @@ class Interp:
                 if len(rg) <= 64:
                     return Tup([Const(i) for i in rg], 'range')
             return Unknown('range')
+        if name == 'next' and args and isinstance(args[0], GenV) and len(args) <= 2 and not kwargs:
+            g = args[0]
+            items, fin = g.take(g.pos + 1)
+            if items is None:
+                return Unknown('next() of a generator that is not followed')
+            if len(items) > g.pos:
+                g.pos += 1
+                return items[g.pos - 1]
+            if len(args) == 2:
+                return args[1]
+            return Unknown('next() of an exhausted generator')
+        if name == 'zip' and any(isinstance(a, GenV) and a.pos for a in args):
+            return Unknown('zip over a partly consumed generator')
+        if name == 'zip' and any(isinstance(a, GenV) for a in args):
+            # demand driven: the shortest finite argument bounds how much is taken from the others
+            its = [None if isinstance(a, GenV) else self.iterate(a, node) for a in args]
+            if any(i is None and not isinstance(a, GenV) for i, a in zip(its, args)):
+                return Unknown('zip')
+            n = min([len(i) for i in its if i is not None], default=None)
+            pending = [k for k, a in enumerate(args) if isinstance(a, GenV)]
+            for attempt in range(2):
+                for k in list(pending):
+                    items, fin = args[k].take(n if n is not None else self.GEN_FUEL)
+                    if items is None:
+                        return Unknown('zip over a generator that is not followed')
+                    if fin or n is not None:
+                        its[k] = items
+                        n = len(items) if n is None else min(n, len(items))
+                        pending.remove(k)
+                if not pending or n is None:
+                    break
+            if pending:
+                return Unknown('zip over generators that do not end')
+            return Tup([Tup(list(x)) for x in zip(*[i[:n] for i in its])], 'zip')
         if name == 'zip':
             its = [self.iterate(a, node) for a in args]
             if all(i is not None for i in its):
@@ -783,6 +901,9 @@ class Interp:
         return Unknown('isinstance')
 
     def iterate(self, v, node):
+        if isinstance(v, GenV):
+            items, fin = v.rest(self.GEN_FUEL)
+            return items if (items is not None and fin) else None
         if isinstance(v, Tup):
             return list(v.items)
         if isinstance(v, Const) and isinstance(v.v, (tuple, list, str)):
@@ -945,6 +1066,22 @@ class Interp:
             self.exec_block(st.orelse, frame)
 
     def st_While(self, st, frame):
+        if self._gen_stack:
+            # inside a generator body a loop with a decided test is run for real: the consumer's demand (_GenStop) ends it
+            for _ in range(4 * self.GEN_FUEL):
+                t = self.truth(self.ev(st.test, frame))
+                if t is None:
+                    raise _GenAbort()
+                if not t:
+                    self.exec_block(st.orelse, frame)
+                    return
+                try:
+                    self.exec_block(st.body, frame)
+                except _Break:
+                    return
+                except _Continue:
+                    continue
+            raise _GenAbort()
         if self.dom.loop(st, frame):
             return
         self._havoc_loop(st, frame)
@@ -1076,6 +1213,35 @@ class Interp:
         if m is None:
             return Unknown('expr %s' % type(node).__name__)
         return m(node, frame)
+
+    def ev_Yield(self, node, frame):
+        if not self._gen_stack:
+            raise _GenAbort()
+        ctx = self._gen_stack[-1]
+        ctx['items'].append(self.ev(node.value, frame) if node.value is not None else Const(None))
+        if ctx['limit'] is not None and len(ctx['items']) >= ctx['limit']:
+            raise _GenStop()
+        return Const(None)
+
+    def ev_YieldFrom(self, node, frame):
+        if not self._gen_stack:
+            raise _GenAbort()
+        ctx = self._gen_stack[-1]
+        src = self.ev(node.value, frame)
+        room = None if ctx['limit'] is None else ctx['limit'] - len(ctx['items'])
+        if isinstance(src, GenV):
+            items, fin = src.take(room)
+        else:
+            items, fin = self.iterate(src, node), True
+        if items is None:
+            raise _GenAbort()
+        for x in items:
+            ctx['items'].append(x)
+            if ctx['limit'] is not None and len(ctx['items']) >= ctx['limit']:
+                raise _GenStop()
+        if not fin:
+            raise _GenStop()
+        return Const(None)
 
     def ev_Constant(self, node, frame):
         return self.dom.const(node.value, node)
@@ -1371,6 +1537,8 @@ class Interp:
                 items = b.items
             elif isinstance(b, DictV):
                 items = [k for k, _ in b.entries]
+                if b.open and not any(i == a for i in items):
+                    return None
             elif isinstance(b, Const) and isinstance(b.v, (tuple, list, str)) and isinstance(a, Const):
                 try:
                     return (a.v in b.v) != neg
